@@ -149,6 +149,11 @@ def build_fs(args):
         rng.shuffle(flat)
         fl = list(flat)
         rec(lambda: DaughtersDict(" ".join(fl)))
+        # the string form with other blank space between and around the names (columns as in a .dec line, tabs)
+        ws = rng.choice(["  ", "    ", "\t", " \t ", "\n"])
+        pad = rng.choice(["", " ", "\t", "  "])
+        rec(lambda: DaughtersDict(pad + ws.join(fl) + pad))
+        rec(lambda: DecayMode(0.5, pad + ws.join(fl) + pad).daughters)
         rec(lambda: DaughtersDict(list(fl)))
         rec(lambda: DaughtersDict(tuple(fl)))
         m = {}
